@@ -382,6 +382,11 @@ def resetOk (s : State) (o : Obj) : Bool :=
      -- completion only loses the sentinel (the branch added by the repair 23063ab)
      ((s.m o).disk.queued && s.dst o != some .complete))
 
+/-- nothing is left in any directory of fork (n, f) -/
+def forkEmpty (s : State) (n f : Nat) : Bool :=
+  (s.m ⟨n, f, .fork⟩).disk == {} && (s.m ⟨n, f, .split⟩).disk == {} && (s.m ⟨n, f, .join⟩).disk == {} &&
+  (List.range (s.nch n f)).all fun i => (s.m ⟨n, f, .chunk i⟩).disk == {}
+
 def allFresh (s : State) : Bool :=
   (List.range s.nodes.length).all fun n => s.cachedOf n == nodeState s n
 
@@ -404,7 +409,10 @@ def guards (s : State) : Ev → List (String × Bool)
                   ("fork-exists", !(s.forksOf n).contains f),
                   ("expansion-of-finished-or-running-node",
                     s.phase != Phase.normal || (!nodeDone s n && s.cachedOf n != NState.running))]
-  | .forkorder n l => [("only-at-load", s.phase == .loading), ("not-a-sublist-of-known-forks", isSubNodup l (s.forksOf n))]
+  | .forkorder n l => [("only-at-load", s.phase == .loading), ("not-a-sublist-of-known-forks", isSubNodup l (s.forksOf n)),
+                       -- re-attaching rebuilds the fork list from what exists: a fork is only dropped from it
+                       -- when nothing is left in its directories
+                       ("dropped-fork-not-empty", (s.forksOf n).all fun f => l.contains f || forkEmpty s n f)]
   | .mkchunks n f k =>
       [("mrp-dead", s.phase != Phase.crashed), ("no-such-fork", s.hasObj ⟨n, f, .fork⟩),
        ("pipeline-has-no-chunks", s.kind n != Kind.pipeline),
@@ -468,7 +476,7 @@ def apply (s : State) : Ev → State
   | .launch o =>
       { s.updMeta o (fun m => put .queuedLocally (put .jobinfo m)) with
         launches := (o, s.inc) :: s.launches, alive := o :: s.alive.filter (· != o) }
-  | .joblog o => s.updMeta o (fun m => toDisk .log (unq m))
+  | .joblog o => s.updMeta o (toDisk .log)   -- `_queued_locally` is removed separately (`U`)
   | .jobend o x => { s.updMeta o (toDisk x) with alive := s.alive.filter (· != o) }
   | .silentfail o => { s.updMeta o (put .errors) with alive := s.alive.filter (· != o) }
   | .refresh => { s with phase := .normal }
